@@ -25,6 +25,11 @@ CLAIMS={
    note="Trusted: go/ssa semantics and gvc's translation, SMT solvers, float64 as reals, strconv.Atoi as an uninterpreted function, IsLatLon/axisOrderIsLatLon/PrintWithDecimals as trusted (no panic, deterministic), decoder invariants (origin present, cell size > 0), magnitudes of matrix 0 (macro indexableIf0). The relation pixel size = cell size / 16, root 1x1 and power-of-two tiles are NOT enforced by the code; for the 14 built-in documents they are checked on the data by an exhaustive enumeration labelled exhaustive-data, not proof.",
    technique="contract-based deductive verification: VCs from go/ssa with quantified invariants and ghost functions for library contracts, z3/cvc5; plus a complete enumeration of the embedded documents on the real code (labelled)",
    design="5 (C14)"),
+ "C15": dict(
+   text="Contracts on FromNative, ToNative, MatrixSize, MatrixBoundingBox and ToXYPoint, proved for all inputs over the reals: FromNative returns a tile exactly when the matrix exists and the point's real tile coordinates lie in [0,W)x[0,H), and then the tile is their truncation; ToNative returns round9 of the tile's top-left corner for both corner-of-origin conventions; a missing matrix gives no tile. Two lemmas over these contracts, also proved: every point at least 1e-9 inside tile (x,y) (measured from the rounded corners ToNative gives for it and for its right / lower neighbour) is addressed by FromNative to exactly (x,y), for top-left and for bottom-left origins. All three functions obtain x,y order from the same ToXYPoint whose swap decision depends on the tile matrix set only.",
+   note="Trusted: go/ssa semantics and gvc's translation, SMT solvers; float64 treated as real numbers (IEEE rounding not modelled); IsLatLon / axisOrderIsLatLon are trusted to be deterministic and panic-free, the EPSG axis table is data (a wrong table entry or a wrong branch inside IsLatLon is NOT detected); points less than 9e18 tiles from the origin. Not decided: bounding box == span of the corner tiles exactly (double rounding at ties), points within 1e-9 of a border.",
+   technique="contract-based deductive verification: VCs from go/ssa over reals with to_int for truncation/rounding, property-level lemmas over the contracts, z3/cvc5",
+   design="5 (C15)"),
 }
 NA={
  # filled below for every property that is not claimed
